@@ -339,6 +339,12 @@ impl AvpHeader {
     }
 
     pub fn encode_to<W: Write>(&self, writer: &mut W) -> Result<()> {
+        if self.length > 0x00FF_FFFF {
+            return Err(Error::EncodeError(
+                "AVP is too long, its length does not fit into 24 bits".into(),
+            ));
+        }
+
         // Code
         writer.write_all(&self.code.to_be_bytes())?;
 
